@@ -96,6 +96,23 @@ unsafe fn level_swap<M: Manager>(
             .all(|e| manager.get_node(e).level() == lower_no_pre)
     );
 
+    // Cofactors of a child that skips the lower level: the child itself, unless
+    // the diagram rules prescribe a terminal (e.g., the empty set for the "high"
+    // cofactor in zero-suppressed decision diagrams).
+    let skipped_cofactors: SmallVec<[Option<M::Edge>; 2]> = (0..M::InnerNode::ARITY)
+        .map(|i| {
+            <M::Rules as DiagramRules<_, _, _>>::skipped_cofactor_terminal(i).map(|t| {
+                match manager.get_terminal(t) {
+                    Ok(e) => e,
+                    Err(OutOfMemory) => {
+                        eprintln!("Out of memory");
+                        std::process::abort();
+                    }
+                }
+            })
+        })
+        .collect();
+
     let old_upper = LevelView::take(&mut lower);
     // SAFETY: reordering is in progress
     let old_upper = unsafe { old_upper.unwrap_unchecked() };
@@ -151,9 +168,15 @@ unsafe fn level_swap<M: Manager>(
                         debug_assert!(
                             node.level() != upper_no_pre && node.level() != lower_no_pre
                         );
-                        // The child is below the lower level, so we always have
-                        // this child
-                        (0..M::InnerNode::ARITY).map(|_| c.borrowed()).collect()
+                        // The child is below the lower level, so it does not
+                        // depend on the lower level's variable
+                        skipped_cofactors
+                            .iter()
+                            .map(|t| match t {
+                                Some(t) => t.borrowed(),
+                                None => c.borrowed(),
+                            })
+                            .collect()
                     }
                 }
             })
@@ -219,6 +242,10 @@ unsafe fn level_swap<M: Manager>(
         unsafe { node.set_level(lower_no_pre) };
         // SAFETY: the caller will update level numbers accordingly
         unsafe { upper.insert_unchecked(manager.clone_edge(e)) };
+    }
+
+    for e in skipped_cofactors.into_iter().flatten() {
+        manager.drop_edge(e);
     }
 
     abort_on_panic.defuse();
